@@ -111,6 +111,11 @@ type c10Call struct {
 	Good        bool
 	Bad         string
 	Late        bool
+	ExpectedErr bool
+}
+
+func errFor(off uint64) (string, uint32) {
+	return fmt.Sprintf("scripted failure %d", off&0xFFFFFF), uint32(off>>3)&0x7FFF + 1
 }
 
 type c10State struct {
@@ -193,6 +198,28 @@ func (st *c10State) runCallerOps(ci int, ops []Op, late bool) {
 				}
 			}
 			cl.end(err, bad)
+		case "readerr", "readwrong":
+			// the scripted server answers these with an Rerror / a reply of the wrong type
+			off, cnt := uint64(op.a(0)), uint32(op.a(1))
+			cl := st.begin(ci, i, op.K, fmt.Sprintf("%d/%d/%d", Tread, fid.Fid, off), late)
+			_, err := clnt.Read(fid, off, cnt)
+			bad := ""
+			if err == nil {
+				bad = "the server answered with an error / a wrong reply type but the call returned success"
+			} else if op.K == "readerr" {
+				e, ok := err.(*go9p.Error)
+				wantTxt, wantNum := errFor(off)
+				if !ok || e.Err != wantTxt {
+					bad = fmt.Sprintf("Rerror text %q came back as %v", wantTxt, err)
+				} else if clnt.Dotu && e.Errornum != wantNum {
+					bad = fmt.Sprintf("Rerror number %d came back as %d", wantNum, e.Errornum)
+				}
+			}
+			cl.end(nil, bad)
+			if bad == "" {
+				cl.Good = true
+			}
+			cl.ExpectedErr = true
 		case "write":
 			off, cnt := uint64(op.a(0)), int(op.a(1))
 			if cnt > int(fid.Iounit) {
